@@ -644,8 +644,10 @@ class HandshakeSettings(object):
         if other.maxVersion not in KNOWN_VERSIONS:
             raise ValueError("maxVersion set incorrectly")
 
-        if other.maxVersion < (3, 4):
-            other.versions = [i for i in other.versions if i < (3, 4)]
+        # the list used with the supported_versions extension must never
+        # reach outside the configured [minVersion, maxVersion] window
+        other.versions = [i for i in other.versions
+                          if other.minVersion <= i <= other.maxVersion]
 
     @staticmethod
     def _sanityCheckEMSExtension(other):
